@@ -250,7 +250,7 @@ func (s *c16Sys) check() {
 			s.violation("crl-without-number", "CRL of %s has no CRL number", name)
 			continue
 		}
-		newBuild := s.lastRaw[name] == nil
+		newBuild := false // the first observation of a CRL says nothing about when it was built
 		if s.lastRaw[name] != nil && !bytes.Equal(raw, s.lastRaw[name]) {
 			newBuild = true
 			if crl.Number.Cmp(s.lastNum[name]) <= 0 {
@@ -854,6 +854,7 @@ func TestVerif_C16_FaultAllK(t *testing.T) {
 func c16OneK(rt *rapid.T, rec *verifx.Recorder, nIss int, auto bool, prevIss []int, target int, byCert, noStore, crash bool, k int) bool {
 	s := c16Setup(rt, rec, nIss, auto)
 	defer s.close()
+	s.check()
 	issueBy := func(iss int, role string) *c16Cert {
 		resp := s.mustWrite("issue", fmt.Sprintf("issuer/i%d/issue/%s", iss, role), map[string]any{"common_name": fmt.Sprintf("c%d.example.com", len(s.certs))})
 		c, err := vxParseCertPEM(vxStr(resp.Data, "certificate"))
